@@ -612,15 +612,24 @@ def rule_sub_inputs(facts):
         r.samples.append({m: {f: fmt_roots(pv.of_operand(o)) for f, o in zip(rv["fields"], rv["ops"])}})
     # with_input: inner secondary drained into outer exactly once (drain + extend), inner alt re-homed at the outer cursor
     b = facts.one("input::InputRef::with_input")
-    names = [f["name"] for _, _, _, f in calls(b) if f is not None]
-    ext_blocks = [i for i, bl, t, f in calls(b) if f is not None and f["name"] == "extend"]
-    ok = names.count("extend") == 1 and names.count("drain") == 1 and on_all_paths(b, ext_blocks)
+    # decided on the effects normal form (engine/nf.py): `outer.extend(inner.drain(..).map(|e| Located::at(outer.cursor, e.err)))` and the
+    # explicit loop `for e in inner.drain(..) { outer.push(Located::at(outer.cursor, e.err)) }` are the same single effect
+    from rules_types import effects_nf
+    import re as _re
+    eff = effects_nf(facts, b)
+    moves = [x for x in eff if _re.match(r"^(push|extend|append|extend_from_slice|insert)\(arg1\.errors\.secondary\b", x)]
+    want_rx = r"^push\(arg1\.errors\.secondary, Located\{pos: arg1\.cursor, err: elem\(drain\((arg\d+)\.secondary, RangeFull\{\}\)\)\.err\}\) \[each\]$"
+    ok = len(moves) == 1 and _re.match(want_rx, moves[0]) is not None
+    if ok:
+        # the drained list is the inner input's: the Errors value the child InputRef was built with
+        inner = _re.match(want_rx, moves[0]).group(1)
+        ok = any(("errors: %s," % inner) in x and x.startswith("call") for x in eff)
     r.ob(ok)
     if not ok:
         r.violations.append(V("SUB-INPUT", b["qname"], "inner emissions moved to the outer list once",
-                              "with_input must drain the inner secondary errors into the outer list exactly once, on every path "
-                              "(whatever the inner parse left pending); calls: %s"
-                              % [n for n in names if n in ("extend", "drain", "append", "push")], *loc(b)))
+                              "with_input must move every secondary error of the inner input to the outer list exactly once, on every path, "
+                              "re-anchored at the outer cursor (`push(outer.secondary, Located::at(outer.cursor, e.err))` for each e of "
+                              "`inner.secondary.drain(..)`); found: %s" % (moves or eff), *loc(b)))
     # WithState::go passes a fresh clone of self.state
     ws = facts.find("combinator::WithState[Parser]::go")
     if len(ws) != 1:
